@@ -717,7 +717,7 @@ def describe(case):
 def plan(tier):
     if tier == "thorough":
         return [("main", 300000)], 1200
-    return [("main", 12000)], 240
+    return [("main", 9000)], 240
 
 
 RULE = ("one run = one delivery (source kind x read schedule x chunk size) of one constructed byte document "
